@@ -509,3 +509,91 @@ Section MonoMP.
     lra.
   Qed.
 End MonoMP.
+
+Local Close Scope Q_scope.
+Local Open Scope nat_scope.
+(* ================================================================== *)
+(* 9. what "the other motifs of j" means: under the cover precondition the code's neighbour-based
+   exclusion is "all motifs of j except the current one, each once" *)
+Lemma filter_map_snd : forall {X} (q : nat -> bool) (l : list (X * nat)),
+    map snd (filter (fun p => q (snd p)) l) = filter q (map snd l).
+Proof.
+  intros X q. induction l as [|p l IH]; [reflexivity|]. cbn [filter map].
+  destruct (q (snd p)); cbn [map]; rewrite IH; reflexivity.
+Qed.
+
+Lemma nodup_ids_done_irrelevant : forall id t d d',
+    (forall x, x <> id -> memb x d = memb x d') ->
+    filter (fun x => negb (Nat.eqb x id)) (nodup_ids t d) = filter (fun x => negb (Nat.eqb x id)) (nodup_ids t d').
+Proof.
+  intros id. induction t as [|x t IH]; intros d d' Hd; [reflexivity|]. cbn [nodup_ids].
+  destruct (Nat.eqb x id) eqn:E.
+  - apply Nat.eqb_eq in E. subst x.
+    assert (H1 : forall d1 d2, (forall x, x <> id -> memb x d1 = memb x d2) ->
+                 forall x, x <> id -> memb x (id :: d1) = memb x d2).
+    { intros d1 d2 H x Hx. cbn [memb existsb]. fold (memb x d1). rewrite (H x Hx).
+      destruct (Nat.eqb x id) eqn:E'; [apply Nat.eqb_eq in E'; contradiction|reflexivity]. }
+    destruct (memb id d), (memb id d'); cbn [filter]; rewrite ?Nat.eqb_refl; cbn [negb].
+    + apply IH, Hd.
+    + apply IH. intros x Hx. symmetry. apply (H1 d' d); [intros; symmetry; auto|exact Hx].
+    + apply IH. apply H1, Hd.
+    + apply IH. intros x Hx. rewrite (H1 d d' Hd x Hx). symmetry.
+      cbn [memb existsb]. fold (memb x d'). destruct (Nat.eqb x id) eqn:E'; [apply Nat.eqb_eq in E'; contradiction|reflexivity].
+  - assert (Hx : x <> id) by (intros ->; rewrite Nat.eqb_refl in E; discriminate).
+    rewrite (Hd x Hx). destruct (memb x d'); [apply IH, Hd|].
+    cbn [filter]. rewrite E. cbn [negb]. f_equal. apply IH.
+    intros y Hy. cbn [memb existsb]. fold (memb y d) (memb y d'). rewrite (Hd y Hy). reflexivity.
+Qed.
+
+Lemma nodup_ids_filter : forall id t d,
+    nodup_ids (filter (fun x => negb (Nat.eqb x id)) t) d
+    = filter (fun x => negb (Nat.eqb x id)) (nodup_ids t d) \/ memb id d = true.
+Proof.
+  intros id t d. destruct (memb id d) eqn:Ed; [right; reflexivity|left]. revert d Ed.
+  induction t as [|x t IH]; intros d Ed; [reflexivity|]. cbn [filter nodup_ids].
+  destruct (Nat.eqb x id) eqn:E; cbn [negb].
+  - apply Nat.eqb_eq in E. subst x. rewrite Ed. cbn [filter]. rewrite Nat.eqb_refl. cbn [negb].
+    rewrite (IH d Ed). apply nodup_ids_done_irrelevant.
+    intros y Hy. cbn [memb existsb]. fold (memb y d).
+    destruct (Nat.eqb y id) eqn:E'; [apply Nat.eqb_eq in E'; contradiction|reflexivity].
+  - cbn [nodup_ids]. destruct (memb x d); [apply IH, Ed|].
+    cbn [filter]. rewrite E. cbn [negb]. f_equal. apply IH.
+    cbn [memb existsb]. fold (memb id d). rewrite Ed, Nat.eqb_sym, E. reflexivity.
+Qed.
+
+(* cover precondition seen from vertex j of motif id: a labelled neighbour lies in the motif's vertex list
+   exactly when the connecting edge belongs to that motif (motifs sharing j share nothing else) *)
+Definition cover_ok_at (nt : net) (j id : nat) : Prop :=
+  forall l id', In (l, id') (nbrs_lab nt j) ->
+                (memb l (m_verts (find_motif nt id)) = true <-> id' = id).
+
+Theorem others_semantic : forall nt j id, cover_ok_at nt j id ->
+    others nt j (m_verts (find_motif nt id)) = filter (fun x => negb (Nat.eqb x id)) (ids_at nt j).
+Proof.
+  intros nt j id Hc. unfold others, ids_at.
+  pose (q := fun x => negb (Nat.eqb x id)).
+  assert (E : filter (fun p => negb (memb (fst p) (m_verts (find_motif nt id)))) (nbrs_lab nt j)
+              = filter (fun p => q (snd p)) (nbrs_lab nt j)).
+  { apply filter_ext_in. intros [l id'] Hin. unfold q. cbn [fst snd]. specialize (Hc l id' Hin).
+    destruct (memb l (m_verts (find_motif nt id))) eqn:Em, (Nat.eqb id' id) eqn:Ei; try reflexivity.
+    - apply Nat.eqb_neq in Ei. exfalso. apply Ei, Hc. reflexivity.
+    - apply Nat.eqb_eq in Ei. apply Hc in Ei. discriminate. }
+  rewrite E, (filter_map_snd q). unfold q.
+  destruct (nodup_ids_filter id (map snd (nbrs_lab nt j)) []) as [H|H]; [exact H|discriminate H].
+Qed.
+
+Lemma cover_ok_atb_spec : forall nt j id, cover_ok_atb nt j id = true -> cover_ok_at nt j id.
+Proof.
+  intros nt j id H l id' Hin. unfold cover_ok_atb in H. rewrite forallb_forall in H.
+  specialize (H _ Hin). cbn [fst snd] in H. apply Bool.eqb_prop in H. rewrite H. apply Nat.eqb_eq.
+Qed.
+
+Theorem cover_okb_others : forall nt, cover_okb nt = true ->
+    forall i j id, In (i, j, id) (n_sweep nt) ->
+    forall v, In v (g_nodes (motif_graph (find_motif nt id))) ->
+      others nt v (m_verts (find_motif nt id)) = filter (fun x => negb (Nat.eqb x id)) (ids_at nt v).
+Proof.
+  intros nt H i j id Hin v Hv. unfold cover_okb in H. rewrite forallb_forall in H.
+  specialize (H _ Hin). cbn beta iota in H. rewrite forallb_forall in H.
+  apply others_semantic, cover_ok_atb_spec, H, Hv.
+Qed.
